@@ -954,14 +954,12 @@ func (g *generatorObject) step(res Value, resType resultType, ex *Exception) Val
 		g.state = genStateSuspendedYield
 		return g.val.runtime.createIterResultObject(res, false)
 	case resultYieldDelegate:
-		g.state = genStateSuspendedYield
-		return g.delegate(res)
+		return g.delegate(res, genStateSuspendedYield)
 	case resultYieldRes:
 		g.state = genStateSuspendedYieldRes
 		return g.val.runtime.createIterResultObject(res, false)
 	case resultYieldDelegateRes:
-		g.state = genStateSuspendedYieldRes
-		return g.delegate(res)
+		return g.delegate(res, genStateSuspendedYieldRes)
 	case resultNormal:
 		g.state = genStateCompleted
 		return g.val.runtime.createIterResultObject(res, true)
@@ -970,15 +968,18 @@ func (g *generatorObject) step(res Value, resType resultType, ex *Exception) Val
 	}
 }
 
-func (g *generatorObject) delegate(v Value) Value {
+// delegate starts a yield*. GetIterator is evaluated inside the generator: the generator keeps running
+// (and rejects re-entrant calls) while the iterable's [Symbol.iterator]() executes and while its body
+// handles a failure of it; it is suspended, in the given state, only once the delegate is in place.
+func (g *generatorObject) delegate(v Value, suspended generatorState) Value {
 	ex := g.val.runtime.try(func() {
 		g.delegated = g.val.runtime.getIterator(v, nil)
 	})
 	if ex != nil {
 		g.delegated = nil
-		g.state = genStateCompleted
 		return g.step(g.gen.nextThrow(ex))
 	}
+	g.state = suspended
 	return g.next(_undefined)
 }
 
